@@ -4,7 +4,7 @@
 # usage: matrix.sh [seed-name ...]
 cd /verif
 SEEDS="$@"; [ -z "$SEEDS" ] && SEEDS=$(ls seeded | grep -v '\.md$')
-PROPS=$(./bin/gocoverif list)
+PROPS=$(${BIN:-./bin/gocoverif} list)
 for s in $SEEDS; do
   P=seeded/$s/patch.diff; [ -f "$P" ] || continue
   WT=$(mktemp -d /tmp/mx.XXXXXX); EV=$(mktemp -d /tmp/mxev.XXXXXX)
@@ -13,7 +13,7 @@ for s in $SEEDS; do
   cp known_findings.json MANIFEST.json "$EV/"
   det=""
   for id in $PROPS; do
-    ./bin/gocoverif check "$id" --repo "$WT/r" --verif "$EV" --no-controls >/dev/null 2>&1; rc=$?
+    ${BIN:-./bin/gocoverif} check "$id" --repo "$WT/r" --verif "$EV" --no-controls >/dev/null 2>&1; rc=$?
     [ $rc -ne 0 ] && det="$det $id"
   done
   echo "$s: detected-by:$det"
